@@ -190,7 +190,7 @@ def step (_ : Unit) (toks : List String) : Unit × String :=
     | some d =>
       let line := dimText d
       ((), "ok" ++ String.join (["serial", "openmp", "cuda", "hip", "opencl", "metal", "dpcpp"].map
-        fun m => " | " ++ m ++ " " ++ line))
+        fun m => " @@ " ++ m ++ " " ++ line))
     | none => ((), "bad-op")
   | "DR" :: _ :: rest =>
     let ds := rest.takeWhile (· ≠ "|")
